@@ -75,6 +75,9 @@ pub struct Stats {
 }
 
 pub struct HistOut {
+    /// last round: number of running commands at each completion request, and the command steps of the manifest
+    pub branching: Vec<usize>,
+    pub cmd_steps: Vec<usize>,
     /// per round: lengths of the log writes n2 issued
     pub write_lens: Vec<Vec<usize>>,
     /// (length of the record being written at the crash, true if a build record was torn)
@@ -99,6 +102,10 @@ thread_local! {
 
 /// Run one n2 invocation in the current directory with the scripted executor installed.
 pub fn invoke(world: World, spec: InvSpec, tape: OwnedTape) -> Inv {
+    invoke_forced(world, spec, tape, None)
+}
+
+pub fn invoke_forced(world: World, spec: InvSpec, tape: OwnedTape, forced: Option<Vec<usize>>) -> Inv {
     let proj_before = world.disk.clone();
     let mut args: Vec<String> = vec![];
     let here = std::env::current_dir().unwrap();
@@ -129,7 +136,9 @@ pub fn invoke(world: World, spec: InvSpec, tape: OwnedTape) -> Inv {
         args.push(respell(t, spec.spell + i));
     }
     let fault = spec.db_fault;
-    let rc = Rc::new(RefCell::new(Shared::new(world, spec, tape)));
+    let mut shared = Shared::new(world, spec, tape);
+    shared.forced = forced;
+    let rc = Rc::new(RefCell::new(shared));
     n2::verif::set_exec(Some(Box::new(Ex(rc.clone()))));
     n2::verif::set_observer(Some(Box::new(Obs(rc.clone()))));
     DBFAULT_STATE.with(|s| *s.borrow_mut() = (0, fault, None));
@@ -817,16 +826,20 @@ pub struct HistOpts<'a> {
     pub fault: Option<(usize, usize, usize)>,
     /// plain full builds appended after the case's own rounds: build, repeat, small edit + build
     pub extra_rounds: usize,
+    /// exhaustive schedule exploration: completion choices and failing set forced on the last round
+    pub forced: Option<(Vec<usize>, Vec<usize>)>,
 }
 
 pub fn run_history(case: &Case, prof: &Profile, dir: &Path, focus: &str, known: &[crate::engine::Finding]) -> HistOut {
-    run_history_x(case, prof, dir, &HistOpts { focus, known, fault: None, extra_rounds: 0 })
+    run_history_x(case, prof, dir, &HistOpts { focus, known, fault: None, extra_rounds: 0, forced: None })
 }
 
 pub fn run_history_x(case: &Case, prof: &Profile, dir: &Path, opts: &HistOpts) -> HistOut {
     let (focus, known) = (opts.focus, opts.known);
     let mut write_lens: Vec<Vec<usize>> = vec![];
     let mut crashed: Option<(usize, bool)> = None;
+    let mut last_branching: Vec<usize> = vec![];
+    let mut last_cmd_steps: Vec<usize> = vec![];
     let proj_dir = dir.join("p");
     util::fresh_cwd(&proj_dir);
     let mut mt = Tape::new(&case.main);
@@ -913,11 +926,22 @@ pub fn run_history_x(case: &Case, prof: &Profile, dir: &Path, opts: &HistOpts) -
                 spec.db_fault = Some((i, b));
             }
         }
+        let mut forced_choices = None;
+        if let Some((choices, failing)) = &opts.forced {
+            if round + 1 == nrounds {
+                spec.faults = failing.iter().map(|u| (*u, Fault::Fail)).collect();
+                spec.kill_at = None;
+                spec.restat = false;
+                forced_choices = Some(choices.clone());
+            }
+        }
         prev_spec = Some(spec.clone());
         let spec_desc = json!({"j": spec.j, "k": spec.k, "targets": spec.targets, "faults": format!("{:?}", spec.faults), "kill_at": spec.kill_at, "restat": spec.restat, "use_c": spec.use_c});
         let restat = spec.restat;
-        let mut inv = invoke(world, spec, sched);
+        let mut inv = invoke_forced(world, spec, sched, forced_choices);
         stats.invocations += 1;
+        last_branching = inv.sh.branching.clone();
+        last_cmd_steps = inv.sh.loaded.steps.iter().filter(|s| !s.phony).map(|s| s.uid).collect();
         let attr_before = inv.sh.attr.clone();
         let mut v = judge(&mut inv, prev_clean.as_ref(), &prev_failed, &mut stats);
         write_lens.push(inv.sh.db_lens.clone());
@@ -996,7 +1020,7 @@ pub fn run_history_x(case: &Case, prof: &Profile, dir: &Path, opts: &HistOpts) -
     }
     let desc = json!({"manifest": manifest0, "includes": format!("{:?}", world.includes), "history": trace});
     std::env::set_current_dir("/").ok();
-    HistOut { viols, stats, desc, fp_text, write_lens, crashed }
+    HistOut { viols, stats, desc, fp_text, write_lens, crashed, branching: last_branching, cmd_steps: last_cmd_steps }
 }
 
 /// C06: graphs with injected back edges.  A cycle through explicit/implicit/order-only edges among the
@@ -1088,7 +1112,7 @@ pub fn run_cycle_case(case: &Case, dir: &Path) -> HistOut {
     let fp_text = format!("{:?}{:?}{:?}{}", manifest0, spec_desc, started, res_desc);
     let desc = json!({"manifest": manifest0, "injected": injected, "n2": spec_desc, "result": res_desc, "started": started});
     std::env::set_current_dir("/").ok();
-    HistOut { viols, stats, desc, fp_text, write_lens: vec![], crashed: None }
+    HistOut { viols, stats, desc, fp_text, write_lens: vec![], crashed: None, branching: vec![], cmd_steps: vec![] }
 }
 
 /// C08 (a): record shapes.  One step with `nouts` outputs and `ndeps` reported dependencies whose names
@@ -1167,7 +1191,7 @@ pub fn run_shape_case(nouts: usize, ndeps: usize, namelen: usize, multibyte: boo
     let desc = json!({"shape": {"outputs": nouts, "reported_deps": ndeps, "name_len": namelen, "multibyte": multibyte, "extra_steps": extra_steps}, "history": trace});
     stats.nontrivial.insert("C08");
     std::env::set_current_dir("/").ok();
-    HistOut { viols, stats, desc, fp_text, write_lens: vec![], crashed: None }
+    HistOut { viols, stats, desc, fp_text, write_lens: vec![], crashed: None, branching: vec![], cmd_steps: vec![] }
 }
 
 /// Pinned reproduction of finding F10: a name that survives only in `.n2_db` is accepted as a target.
@@ -1189,5 +1213,82 @@ pub fn run_f10_scenario(dir: &Path) -> HistOut {
     let viols = judge(&mut inv, None, &BTreeSet::new(), &mut stats);
     let desc = json!({"scenario": "build a and b; remove the statement producing `a`; request `a`", "result": format!("{:?}", inv.res), "stdout": inv.stdout});
     std::env::set_current_dir("/").ok();
-    HistOut { viols, stats, desc, fp_text: "F10".into(), write_lens: vec![], crashed: None }
+    HistOut { viols, stats, desc, fp_text: "F10".into(), write_lens: vec![], crashed: None, branching: vec![], cmd_steps: vec![] }
+}
+
+
+/// Exhaustive exploration of completion orders x failing subsets for the last round of a (short) history:
+/// odometer over the observed branching factors.  Returns (runs, violations of `focus`, sample description,
+/// distinct schedules, whether the enumeration was cut by `max_runs`).
+pub fn explore_schedules(case: &Case, prof: &Profile, dir: &Path, focus: &str, known: &[crate::engine::Finding], max_runs: usize) -> (u64, Vec<Viol>, Value, Vec<u64>, bool, Stats) {
+    let mut runs = 0u64;
+    let mut fps = vec![];
+    let mut stats_all = Stats::default();
+    // a first run with no failures tells us the command steps of the last round
+    let first = run_history_x(case, prof, dir, &HistOpts { focus, known, fault: None, extra_rounds: 0, forced: Some((vec![], vec![])) });
+    runs += 1;
+    let own: Vec<Viol> = first.viols.iter().filter(|v| v.prop == focus && !crate::engine::is_known(known, v)).cloned().collect();
+    if !own.is_empty() {
+        return (runs, own, first.desc, fps, false, first.stats);
+    }
+    let steps = first.cmd_steps.clone();
+    // failing subsets: all of them for <= 4 command steps, else none + singletons + pairs
+    let mut subsets: Vec<Vec<usize>> = vec![vec![]];
+    if steps.len() <= 4 {
+        for mask in 1..(1usize << steps.len()) {
+            subsets.push(steps.iter().enumerate().filter(|(i, _)| mask >> i & 1 == 1).map(|(_, u)| *u).collect());
+        }
+    } else {
+        for (i, a) in steps.iter().enumerate() {
+            subsets.push(vec![*a]);
+            for b in &steps[i + 1..] {
+                subsets.push(vec![*a, *b]);
+            }
+        }
+    }
+    let mut cut = false;
+    let mut sample = first.desc.clone();
+    'outer: for failing in &subsets {
+        let mut choices: Vec<usize> = vec![];
+        loop {
+            if runs as usize >= max_runs {
+                cut = true;
+                break 'outer;
+            }
+            let h = run_history_x(case, prof, dir, &HistOpts { focus, known, fault: None, extra_rounds: 0, forced: Some((choices.clone(), failing.clone())) });
+            runs += 1;
+            stats_all.classes.extend(h.stats.classes.iter().cloned());
+            stats_all.nontrivial.extend(h.stats.nontrivial.iter().copied());
+            let own: Vec<Viol> = h.viols.iter().filter(|v| v.prop == focus && !crate::engine::is_known(known, v)).cloned().collect();
+            if !own.is_empty() {
+                let mut desc = h.desc.clone();
+                desc["forced_schedule"] = json!({"choices": choices, "failing": failing});
+                return (runs, own, desc, fps, cut, stats_all);
+            }
+            let b = &h.branching;
+            if b.iter().any(|&x| x >= 2) {
+                fps.push(crate::tape::fnv_str(&format!("{}|{:?}|{:?}", h.fp_text, choices, failing)));
+                if failing.len() == 1 {
+                    sample = h.desc.clone();
+                    sample["forced_schedule"] = json!({"choices": choices, "failing": failing, "branching": b});
+                }
+            }
+            // odometer: advance the last position that still has an untried alternative
+            let mut c: Vec<usize> = (0..b.len()).map(|i| choices.get(i).copied().unwrap_or(0).min(b[i].saturating_sub(1))).collect();
+            let mut advanced = false;
+            while let Some(last) = c.pop() {
+                let i = c.len();
+                if last + 1 < b[i] {
+                    c.push(last + 1);
+                    advanced = true;
+                    break;
+                }
+            }
+            if !advanced {
+                break;
+            }
+            choices = c;
+        }
+    }
+    (runs, vec![], sample, fps, cut, stats_all)
 }
